@@ -3,3 +3,4 @@ from . import core        # noqa: F401
 from . import environments  # noqa: F401
 from . import tags  # noqa: F401
 from . import batching  # noqa: F401
+from . import collectors  # noqa: F401
